@@ -45,6 +45,14 @@
         Ok(())
     }
 
+    /// stub for `String::from_utf8_lossy` (std; its Utf8Chunks state machine is very expensive to unwind): identity
+    /// on the bytes. Faithful for valid UTF-8 (the round-trip harnesses only feed ASCII); on the decoding side the
+    /// content of a reason phrase is in no obligation and std's function is trusted to be total.
+    #[allow(dead_code)]
+    pub(crate) fn lossy_stub(v: &[u8]) -> std::borrow::Cow<'_, str> {
+        std::borrow::Cow::Borrowed(unsafe { core::str::from_utf8_unchecked(v) })
+    }
+
     /// Straight-line specification of RFC 9000 §16 variable-length integer decoding.  It replaces the real
     /// `varint::be_varint` (nom bit-level parser, expensive to unwind) inside the frame harnesses; the harness
     /// `varint_spec_equiv` proves that the real function returns exactly this for every input.
